@@ -120,6 +120,88 @@ theorem all_offcurve_closed_legal (pts : List Pt)
     have hp := h p (by simp [hab])
     simp [hp.1]
 
+/-! ### named points and the format-1 anchor upgrade -/
+
+/-- point names play no part in acceptance: an outline is accepted iff every contour's type/smooth
+    sequence is legal -/
+theorem parseOutline_isSome_iff (v1 : Bool) (cs : List (List (Pt × Bool))) :
+    (parseOutline v1 cs).isSome = true ↔ ∀ c ∈ cs, Legal (c.map Prod.fst) := by
+  unfold parseOutline
+  have h := parseContours_isSome_iff (cs.map (·.map Prod.fst))
+  cases hp : parseContours (cs.map (·.map Prod.fst)) with
+  | none =>
+    simp only [hp, Option.isSome_none, Bool.false_eq_true, false_iff] at h ⊢
+    intro hall
+    apply h
+    intro c hc
+    obtain ⟨c', hc', rfl⟩ := List.mem_map.1 hc
+    exact hall c' hc'
+  | some r =>
+    simp only [hp, Option.isSome_some, true_iff] at h
+    have : ∀ c ∈ cs, Legal (c.map Prod.fst) := fun c hc => h _ (List.mem_map.2 ⟨c, hc, rfl⟩)
+    cases v1 <;> simpa using this
+
+theorem mem_enumFrom {α : Type} (l : List α) (i n : Nat) (a : α) :
+    (n, a) ∈ enumFrom i l ↔ ∃ k, n = i + k ∧ l[k]? = some a := by
+  induction l generalizing i with
+  | nil => simp [enumFrom]
+  | cons b r ih =>
+    simp only [enumFrom, List.mem_cons, Prod.mk.injEq, ih]
+    constructor
+    · rintro (⟨rfl, rfl⟩ | ⟨k, rfl, hk⟩)
+      · exact ⟨0, rfl, rfl⟩
+      · exact ⟨k + 1, by omega, by simpa using hk⟩
+    · rintro ⟨k, rfl, hk⟩
+      cases k with
+      | zero => left; simpa using hk.symm
+      | succ k => right; exact ⟨k, by omega, by simpa using hk⟩
+
+/-- **format 2**: every non-empty contour is returned, with every point (named or not) where it was -/
+theorem v2_contours_unchanged (cs : List (List (Pt × Bool))) (kept : List (Nat × List (Pt × Bool)))
+    (anchors : List Nat) (h : parseOutline false cs = some (kept, anchors)) :
+    kept = (enumFrom 0 cs).filter (fun e => !e.2.isEmpty) ∧ anchors = [] := by
+  unfold parseOutline at h
+  cases hp : parseContours (cs.map (·.map Prod.fst)) with
+  | none => simp [hp] at h
+  | some r => simp [hp] at h; exact ⟨h.1.symm, h.2⟩
+
+/-- **format 1**: exactly the contours that consist of one named `move` point become anchors; every other
+    non-empty contour is returned unchanged — in particular a named first point of a longer contour stays -/
+theorem v1_single_named_move_becomes_anchor (cs : List (List (Pt × Bool)))
+    (kept : List (Nat × List (Pt × Bool))) (anchors : List Nat) (h : parseOutline true cs = some (kept, anchors)) :
+    (∀ n, n ∈ anchors ↔ ∃ p, cs[n]? = some [(p, true)] ∧ p.typ = .move) ∧
+    (∀ n c, (n, c) ∈ kept ↔ cs[n]? = some c ∧ c ≠ [] ∧ isImplicitAnchor c = false) := by
+  unfold parseOutline at h
+  cases hp : parseContours (cs.map (·.map Prod.fst)) with
+  | none => simp [hp] at h
+  | some r =>
+    simp only [hp, if_true, Option.some.injEq, Prod.mk.injEq] at h
+    obtain ⟨rfl, rfl⟩ := h
+    constructor
+    · intro n
+      simp only [List.mem_map, List.mem_filter, Bool.not_eq_true', Prod.exists, exists_and_right,
+        exists_eq_right]
+      constructor
+      · rintro ⟨c, ⟨hmem, _⟩, hia⟩
+        obtain ⟨k, hk, hc⟩ := (mem_enumFrom cs 0 n c).1 hmem
+        have hn : n = k := by omega
+        subst hn
+        unfold isImplicitAnchor at hia
+        match c, hia with
+        | [(p, true)], hia => exact ⟨p, hc, by simpa using hia⟩
+      · rintro ⟨p, hc, hp'⟩
+        refine ⟨[(p, true)], ⟨(mem_enumFrom cs 0 n _).2 ⟨n, by omega, hc⟩, by simp⟩, by simp [isImplicitAnchor, hp']⟩
+    · intro n c
+      simp only [List.mem_filter, Bool.not_eq_true', List.isEmpty_eq_false_iff]
+      constructor
+      · rintro ⟨⟨hmem, hne⟩, hia⟩
+        obtain ⟨k, hk, hc⟩ := (mem_enumFrom cs 0 n c).1 hmem
+        have hn : n = k := by omega
+        subst hn
+        exact ⟨hc, hne, hia⟩
+      · rintro ⟨hc, hne, hia⟩
+        exact ⟨⟨(mem_enumFrom cs 0 n c).2 ⟨n, by omega, hc⟩, hne⟩, hia⟩
+
 -- non-vacuity: a closed contour starting with two off-curves and ending with one is legal
 -- (wrap-around = 3 > 2 would not be)
 example : accepts [⟨.off, false⟩, ⟨.curve, false⟩, ⟨.line, false⟩, ⟨.off, false⟩] = true := by decide
